@@ -13,6 +13,7 @@ Open Scope list_scope.
 
 Inductive json :=
 | JNull | JBool (b : bool) | JInt (z : Z) | JFloat (d : tdelta) | JStr (s : list Z) | JIso (c : civil)
+| JReal (x : Z)      (* any other float, by an exact integer representation (used for time.monotonic() stamps) *)
 | JArr (l : list json) | JObj (l : list (string * json)).
 
 Fixpoint jget (k : string) (o : list (string * json)) : option json :=
@@ -202,7 +203,7 @@ Definition ser_message (m : message) : list Z :=
 Fixpoint ser_json (j : json) : list Z :=
   match j with
   | JNull => [0] | JBool b => [1; if b then 1 else 0] | JInt z => [2; z] | JFloat d => [3; td_days d; td_seconds d; td_us d]
-  | JStr s => 4 :: Z.of_nat (List.length s) :: s | JIso c => 5 :: ser_civil c
+  | JStr s => 4 :: Z.of_nat (List.length s) :: s | JIso c => 5 :: ser_civil c | JReal x => [8; x]
   | JArr l => 6 :: Z.of_nat (List.length l) :: List.concat (map ser_json l)
   | JObj l => 7 :: Z.of_nat (List.length l) :: List.concat (map (fun kv => (Z.of_nat (List.length (codes (fst kv))) :: codes (fst kv)) ++ ser_json (snd kv)) l)
   end.
